@@ -37,9 +37,9 @@ theorem overlapping_kill_leaves_dead (P : Params) (hP : P.Good) (proto : Proto) 
     (killDuring P proto beh lost hasAddr closeAgainOk).returns = true ∧
     (killDuring P proto beh lost hasAddr closeAgainOk).procDead = true ∧
     (killDuring P proto beh lost hasAddr closeAgainOk).exitedFlag = true := by
-  obtain ⟨h1, h2, h3, h4, h5, h6⟩ := hP
+  obtain ⟨h1, h2, h3, h4, h5, h6, h7⟩ := hP
   cases proto <;> cases beh <;> cases lost <;> cases hasAddr <;> cases closeAgainOk <;>
-    simp [killDuring, kill, close, h1, h2, h3, h4, h5, h6]
+    simp [killDuring, kill, close, h1, h2, h3, h4, h5, h6, h7]
 
 /-- **A plugin that exits on its own shortly after the shutdown request is not force-killed** and
 finishes its cleanup — on both protocols, and whether or not its reply to the request was lost. -/
@@ -90,28 +90,32 @@ theorem kill_clears_runner (P : Lifecycle.Params) (s s1 s2 : State) (a b : Bool)
 
 /-! ### Witnesses -/
 
-def pGood : Params := ⟨2000, true, true, true, true, true⟩
+def pGood : Params := ⟨2000, true, true, true, true, true, true⟩
 
 /-- D3: a gRPC plugin frozen with SIGSTOP: without a deadline on the shutdown RPC, Kill never returns. -/
-theorem frozen_grpc_witness : (kill ⟨2000, true, false, true, true, true⟩ .grpc .frozen false true true).returns = false := by decide
+theorem frozen_grpc_witness : (kill ⟨2000, true, false, true, true, true, true⟩ .grpc .frozen false true true).returns = false := by decide
 
 /-- net/rpc: the plugin exits as soon as it has handled Quit; if the lost reply counts as a failed close,
 a plugin that is exiting on its own is force-killed at once and may not finish its cleanup. -/
 theorem lost_reply_witness :
-    (kill ⟨2000, true, true, false, true, true⟩ .netrpc .exitsFast true true true).forced = true ∧
-    (kill ⟨2000, true, true, false, true, true⟩ .netrpc .exitsFast true true true).cleanedUp = false := by decide
+    (kill ⟨2000, true, true, false, true, true, true⟩ .netrpc .exitsFast true true true).forced = true ∧
+    (kill ⟨2000, true, true, false, true, true, true⟩ .netrpc .exitsFast true true true).cleanedUp = false := by decide
 
 /-- without the force-kill after the grace period an ignoring plugin survives Kill -/
-theorem no_force_witness : (kill ⟨2000, false, true, true, true, true⟩ .grpc .ignores false true true).procDead = false := by decide
+theorem no_force_witness : (kill ⟨2000, false, true, true, true, true, true⟩ .grpc .ignores false true true).procDead = false := by decide
 
 /-- with the runner reference dropped in `Kill`'s first lock section, an overlapping `Kill` returns at once while the
 plugin is still alive (and `Exited()` is false) -/
 theorem early_clear_witness :
-    (killDuring ⟨2000, true, true, true, true, false⟩ .grpc .ignores false true true).returns = true ∧
-    (killDuring ⟨2000, true, true, true, true, false⟩ .grpc .ignores false true true).procDead = false := by decide
+    (killDuring ⟨2000, true, true, true, true, false, true⟩ .grpc .ignores false true true).returns = true ∧
+    (killDuring ⟨2000, true, true, true, true, false, true⟩ .grpc .ignores false true true).procDead = false := by decide
+
+/-- with keep-alive switched off on the host's yamux session nothing ever ends the `Control.Quit` call to a frozen
+net/rpc plugin: `Kill` does not return -/
+theorem no_keepalive_witness : (kill ⟨2000, true, true, true, true, true, false⟩ .netrpc .frozen false true true).returns = false := by decide
 
 /-- a longer grace period is a longer bound -/
-theorem grace_bound_witness : (kill ⟨200000, true, true, true, true, true⟩ .grpc .ignores false true true).boundMs = 200000 := by decide
+theorem grace_bound_witness : (kill ⟨200000, true, true, true, true, true, true⟩ .grpc .ignores false true true).boundMs = 200000 := by decide
 
 /-! ### Non-vacuity -/
 example : kill pGood .netrpc .exitsFast true true true = ⟨true, false, true, true, true, 2000⟩ := by decide
